@@ -104,6 +104,17 @@ func newC03Runner(e *Enc, k int) *c03Runner {
 	p.S.PC = 0x0100
 	toCPU(&p.S, &r.cpu)
 	r.base = r.cpu.States
+	// the sweep runs on a by-value copy of a CPU with a past (warmFork)
+	r.cpu = warmFork(r.mem, nil, func(a uint16, b ...uint8) {
+		for i, x := range b {
+			r.mem.b[a+uint16(i)] = x
+		}
+	}, &p.S, e.Fixed)
+	r.cpu.Memory = r.mem
+	for i := range r.mem.b {
+		r.mem.b[i] = 0
+	}
+	r.cpu.States = r.base
 	copy(r.mem.b[0x0100:], e.Fixed)
 	return r
 }
